@@ -35,22 +35,26 @@ class C08(Prop):
                 others = rng.sample([u for u in verts if u != v], s - 1)
                 cover.append([v] + others)
                 seen |= set(cover[-1])
+        if rng.random() < 0.2:
+            cover.append(list(rng.choice(cover)))            # the same clique listed twice
         rng.shuffle(cover)
         malformed = rng.random() < 0.10
         if malformed:
             shift = rng.choice([2, 3])
             cover = [[v + (shift if v >= base + n // 2 else 0) for v in c] for c in cover]
-        return {"cover": cover, "contiguous": not malformed}
+        mask = [rng.random() < 0.5 for _ in cover] if rng.random() < 0.3 else None     # cliques given as tuples
+        return {"cover": cover, "contiguous": not malformed, "tuple_mask": mask}
 
     def impl(self, case):
         from gcmpy.joint_degree.joint_degree_loaders.joint_degree_cover import JointDegreeCover
         from gcmpy.names.joint_degree_names import JointDegreeNames as JN
-        cover = [list(c) for c in case["cover"]]
+        mask = case.get("tuple_mask") or [False] * len(case["cover"])
+        cover = [tuple(c) if t else list(c) for c, t in zip(case["cover"], mask)]
         obj = JointDegreeCover({JN.COVER: cover})
         n = len({v for c in case["cover"] for v in c})
         return {"motif_sizes": list(obj.motif_sizes),
                 "table": [[list(k), rs(recover(v, n)), type(k).__name__] for k, v in obj.jdd.items()],
-                "cover_untouched": cover == case["cover"]}
+                "cover_untouched": [list(c) for c in cover] == case["cover"]}
 
     def request(self, case, obs):
         return {"op": "c08", "cover": case["cover"]}
@@ -114,7 +118,7 @@ class C08(Prop):
                 continue
             vs = sorted({v for q in c for v in q})
             if vs == list(range(vs[0], vs[0] + len(vs))) and vs[0] in (0, 1):
-                yield {"cover": c, "contiguous": case["contiguous"]}
+                yield {"cover": c, "contiguous": case["contiguous"], "tuple_mask": None}
 
     def fingerprint(self, case, obs, fails):
         return "C08/" + fails[0].split(":")[0]
